@@ -520,3 +520,10 @@ def run(run):
     ob_empty_bodies(run, mir, rp)
     ob_literals(run, mir, rp)
     rp.close()
+    # an operand that needs delimiting and does not get it can be a syntax error too (`a == not b`): the C10 machinery with
+    # "Python refuses the text" as the only failure
+    try:
+        from props import C10
+        C10.run(run, syntax_only=True)
+    except Unsupported as e:
+        run.ob("operands-delimited-syntax-encoding", "E3+E2", "printer kernels encodable").inconclusive(str(e))
